@@ -631,8 +631,15 @@ def r01_9(chk, P):
     invs = sorted(P.slots.get(('vorbis_func_mapping', 'inverse'), ()))
     chk.require(invs, 'vorbis_func_mapping.inverse has no registered function')
     n = 0
+    todo_f = []
     for inv in invs:
-        F = P.need(inv)
+        F0 = P.need(inv)
+        for k_ in sorted(P.reachable([P.key(F0)])):
+            G = P.fn.get(k_)
+            # the function itself and the file-local helpers it calls (an extracted coupling loop)
+            if G is not None and G.entry is not None and G.file == F0.file and (G is F0 or G.static) and G not in todo_f:
+                todo_f.append(G)
+    for F in todo_f:
         defs = common.single_defs(F)
 
         def coupling_sub(e):
@@ -685,7 +692,7 @@ def r01_9(chk, P):
             other = sorted({b for (b, f) in reads if b != tgt[0]})
             ok = same == {'coupling_mag', 'coupling_ang'} and not other
             n += 1
-            chk.ob('R01.9', inv, f'flag-propagation-reads-the-vector-it-updates:{tgt[1]}#{k}', ok, F.where(e),
+            chk.ob('R01.9', F.name, f'flag-propagation-reads-the-vector-it-updates:{tgt[1]}#{k}', ok, F.where(e),
                    f'`{F.s(e)}` is controlled by reads of {sorted(reads)}' +
                    ('' if ok else f': the step does not test the running flags of `{tgt[0]}` at both channels of the step'
                     + (f' (it reads {other} instead, which an earlier step cannot have updated)' if other else '')))
